@@ -13,6 +13,7 @@ import (
 	"go/token"
 	"go/types"
 	"math/big"
+	"os"
 	"regexp"
 	"sort"
 	"strings"
@@ -71,6 +72,35 @@ func (g *Signer) addFact(c *RF) {
 		return
 	}
 	g.facts = append(g.facts, c)
+	// a bound by a minimum bounds by both, a maximum bounded bounds both:
+	// A < min(x,y) gives A < x and A < y; max(x,y) < A gives x < A and y < A (same for <=)
+	if at := c.SingleAtom(); at != nil && (at.Name == "cmp<" || at.Name == "cmp<=") && len(at.Args) == 2 {
+		s := g.X.S
+		minmax := func(v *RF) (x, y *RF, isMin, ok bool) {
+			ia := v.SingleAtom()
+			if ia == nil || ia.Name != "ite" || len(ia.Args) != 3 {
+				return
+			}
+			ca := ia.Args[0].SingleAtom()
+			if ca == nil || (ca.Name != "cmp<" && ca.Name != "cmp<=") {
+				return
+			}
+			x, y = ia.Args[1], ia.Args[2]
+			switch {
+			case ca.Args[0].Equal(x) && ca.Args[1].Equal(y): // x<y ? x : y
+				return x, y, true, true
+			case ca.Args[0].Equal(y) && ca.Args[1].Equal(x): // y<x ? x : y
+				return x, y, false, true
+			}
+			return nil, nil, false, false
+		}
+		if x, y, isMin, ok := minmax(at.Args[1]); ok && isMin {
+			g.facts = append(g.facts, s.MakeFn(at.Name, at.Args[0], x), s.MakeFn(at.Name, at.Args[0], y))
+		}
+		if x, y, isMin, ok := minmax(at.Args[0]); ok && !isMin {
+			g.facts = append(g.facts, s.MakeFn(at.Name, x, at.Args[1]), s.MakeFn(at.Name, y, at.Args[1]))
+		}
+	}
 }
 
 func (g *Signer) with(c *RF) *Signer {
@@ -174,8 +204,93 @@ func (g *Signer) sign(r *RF, strict bool) bool {
 	}
 	g.depth++
 	defer func() { g.depth-- }()
+	// r = ±k + rest for one integer loop counter k and a rest the loop does not change: by
+	// induction over the loop, r >= 0 when it is at the counter's initial value and an iteration
+	// moves it upwards (or not at all)
+	if !strict {
+		for _, at := range r.Atoms(false) {
+			ph, ok := g.X.phiOf[at.ID]
+			if os.Getenv("GMSA_SIGN_TRACE") == "2" {
+				fmt.Fprintf(os.Stderr, "AFFINE r=%s atom=%s isphi=%v int=%v\n", clip(r.String(), 200), at.Name, ok, at.Int)
+			}
+			if !ok || !at.Int || g.Used[fmt.Sprintf("@affine:%d", at.ID)] {
+				continue
+			}
+			pfc := g.X.phiFC[at.ID]
+			if !pfc.isHeaderPhi(ph) {
+				continue
+			}
+			k := g.X.S.atomRF(at.ID)
+			ki, kn := recurrenceOrNil(pfc, k)
+			if ki == nil {
+				continue
+			}
+			step, isC := kn.Sub(k).IsConst()
+			coef, okD := r.Deriv(at.ID)
+			if os.Getenv("GMSA_SIGN_TRACE") == "2" {
+				fmt.Fprintf(os.Stderr, "  ki=%s kn=%s isC=%v okD=%v coef=%v\n", clip(ki.String(), 100), clip(kn.String(), 100), isC, okD, coef)
+			}
+			if !isC || !okD {
+				continue
+			}
+			cc, isCC := coef.IsConst()
+			if !isCC || new(big.Rat).Mul(cc, step).Sign() < 0 {
+				continue
+			}
+			rest := r.Sub(coef.Mul(k))
+			// the rest must not change during k's loop: no quantity carried by that loop (or one nested in it)
+			var kl *Loop
+			for _, l := range pfc.Ctx.Loops() {
+				if l.Header == ph.Block() {
+					kl = l
+				}
+			}
+			varies := kl == nil || len(FindAtomID(rest, at.ID)) > 0
+			for _, ra := range rest.Atoms(true) {
+				if q, isPhi := g.X.phiOf[ra.ID]; isPhi && (q.Parent() != ph.Parent() || kl != nil && kl.Body[q.Block().Index]) {
+					varies = true
+				}
+				if _, isMem := g.X.memphiOf[ra.ID]; isMem {
+					varies = true
+				}
+			}
+			if os.Getenv("GMSA_SIGN_TRACE") == "2" {
+				fmt.Fprintf(os.Stderr, "  varies=%v kl=%v rest=%s\n", varies, kl != nil, rest)
+			}
+			if varies {
+				continue
+			}
+			key := fmt.Sprintf("@affine:%d", at.ID)
+			g.Used[key] = true
+			ok2 := g.sign(r.Subst(map[AtomID]*RF{at.ID: ki}), false)
+			delete(g.Used, key)
+			if os.Getenv("GMSA_SIGN_TRACE") == "2" {
+				fmt.Fprintf(os.Stderr, "  start=%s ok=%v depth=%d steps=%d/%d\n", r.Subst(map[AtomID]*RF{at.ID: ki}), ok2, g.depth, g.X.signSteps, g.X.signLimit)
+			}
+			if ok2 {
+				g.Used["induction over a loop counter (start value and direction)"] = true
+				return true
+			}
+		}
+	}
 	if g.direct(r, strict) {
 		return true
+	}
+	// r mentions a choice ite(c, x, y) (an inlined min/max, a clamped bound): r has the sign in
+	// question when it has it in both cases, each under its condition
+	// (explicit queries only: not in the small-budget fallback tried for every comparison)
+	if len(r.N.terms) > 1 && g.X.signLimit >= 3000 {
+		for _, at := range r.Atoms(false) {
+			if at.Name != "ite" || len(at.Args) != 3 || g.depth > 6 {
+				continue
+			}
+			t := r.Subst(map[AtomID]*RF{at.ID: at.Args[1]})
+			f := r.Subst(map[AtomID]*RF{at.ID: at.Args[2]})
+			if g.with(at.Args[0]).sign(t, strict) && g.with(g.X.S.Not(at.Args[0])).sign(f, strict) {
+				return true
+			}
+			break // one choice per level: nested ones are reached by the recursion
+		}
 	}
 	// r = v * r' for an atom v common to every term of the numerator
 	// (denominator a positive constant): signs multiply
